@@ -401,6 +401,70 @@ def _classify(ex: BaseException) -> str:
     return "EOther"
 
 
+def _parse_output(loaded, mode, folder):
+    """The /output node -> [[run, bucket, format, name]] (names relative to `folder` when inside it)."""
+    rep = []
+    for b, (da, vals) in loaded.items():
+        dims = list(da.dims)
+        fdim = "extension" if "extension" in dims else "data_format"
+        if fdim not in dims:
+            return dict(error=f"/output/{b}: no format dimension in {dims}")
+        fmts = [str(x) for x in da.coords[fdim].values]
+        rdims = [d for d in dims if d != fdim]
+        if mode == "exposure":
+            if rdims:
+                return dict(error=f"/output/{b}: unexpected dims {dims}")
+            runs = [None]
+        else:
+            if len(rdims) != 1:
+                return dict(error=f"/output/{b}: unexpected dims {dims}")
+            runs = [int(x) for x in da.coords[rdims[0]].values]
+        arr = np.asarray(vals, dtype=object)
+        arr = np.moveaxis(arr, dims.index(fdim), -1) if arr.ndim > 1 else arr
+        by_ext = arr.size != len(runs) * len(fmts)
+        if by_ext and (arr.size == 0 or arr.size % len(runs)):
+            return dict(error=f"/output/{b}: {arr.size} names for {len(runs)} runs x formats {fmts}")
+        # more (or fewer) names than the format coordinate announces: the node is ill-formed; report every
+        # name under the format its extension says, so that the specification judges what is there
+        arr = arr.reshape(len(runs), -1)
+        for i, r in enumerate(runs):
+            for j in range(arr.shape[1]):
+                nm = str(arr[i, j])
+                q = Path(nm)
+                f = q.suffix.removeprefix(".") if by_ext else fmts[j]
+                if q.is_absolute() and folder is not None:
+                    nm = q.name if q.parent == folder else nm
+                rep.append([0 if r is None else r, b, f, nm])
+    return rep
+
+
+def _settle(folder: Path, quiet: float = 0.3, limit: float = 6.0):
+    """After a parallel computation failed, tasks of other runs may still be writing: wait until the
+    directory has not changed for `quiet` seconds."""
+    def snap():
+        return sorted((q.name, q.stat().st_size) for q in folder.iterdir())
+
+    t0 = time.time()
+    last, since = snap(), time.time()
+    while time.time() - t0 < limit:
+        time.sleep(0.05)
+        now = snap()
+        if now != last:
+            last, since = now, time.time()
+        elif time.time() - since >= quiet:
+            return
+
+
+def _listing(folder: Path, pre_bytes: dict):
+    files = []
+    for q in sorted(folder.iterdir()):
+        if q.is_file():
+            files.append([q.name, _token(q, pre_bytes)])
+        else:
+            files.append([q.name + "/", -4])
+    return files
+
+
 def flow(p):
     import pyxel
     from harness import pyx
@@ -475,39 +539,263 @@ def flow(p):
         folder = Path(outputs.current_output_folder)
     except Exception:  # noqa: BLE001
         return dict(error="no output folder was created", detail=crash)
-    # the /output node -> (run, bucket, format, name)
-    for b, (da, vals) in loaded.items():
-        dims = list(da.dims)
-        fdim = "extension" if "extension" in dims else "data_format"
-        if fdim not in dims:
-            return dict(error=f"/output/{b}: no format dimension in {dims}")
-        fmts = [str(x) for x in da.coords[fdim].values]
-        rdims = [d for d in dims if d != fdim]
-        if mode == "exposure":
-            if rdims:
-                return dict(error=f"/output/{b}: unexpected dims {dims}")
-            runs = [None]
-        else:
-            if len(rdims) != 1:
-                return dict(error=f"/output/{b}: unexpected dims {dims}")
-            runs = [int(x) for x in da.coords[rdims[0]].values]
-        arr = np.asarray(vals, dtype=object)
-        arr = np.moveaxis(arr, dims.index(fdim), -1) if arr.ndim > 1 else arr
-        arr = arr.reshape(len(runs), len(fmts))
-        for i, r in enumerate(runs):
-            for j, f in enumerate(fmts):
-                nm = str(arr[i, j])
-                q = Path(nm)
-                if q.is_absolute():
-                    nm = q.name if q.parent == folder else nm
-                rep.append([0 if r is None else r, b, f, nm])
-    files = []
-    for q in sorted(folder.iterdir()):
-        if q.is_file():
-            files.append([q.name, _token(q, pre_bytes)])
-        else:
-            files.append([q.name + "/", -4])
+    rep = _parse_output(loaded, mode, folder)
+    if isinstance(rep, dict):
+        return rep
+    if err is not None and mode == "dask":
+        _settle(folder)
+    files = _listing(folder, pre_bytes)
     return dict(err=err, rep=sorted(rep), files=files, detail=crash, folder_is_new=True)
+
+
+# ------------------------------------------------------------------------------------------ histories
+
+
+def _py_req(req):
+    return [{f"detector.{b}.array": list(fmts) for b, fmts in dct} for dct in req]
+
+
+def _apply_edit(outputs, parent: Path, e: dict):
+    """One edit of the ONE outputs object: in place, or by assigning a modified deep copy."""
+    import copy
+
+    k = e["op"]
+    if k == "folder":
+        outputs.output_folder = parent / e["name"]
+        return
+    if k == "prefix":
+        outputs.custom_dir_name = e["name"]
+        return
+    if k == "set":
+        outputs.save_data_to_file = _py_req(e["req"])
+        return
+    inplace = bool(e.get("inplace", True))
+    req = outputs.save_data_to_file if inplace else copy.deepcopy(outputs.save_data_to_file)
+    key = f"detector.{e['b']}.array" if "b" in e else None
+    if k == "append_dict":
+        req.append(_py_req([e["dict"]])[0])
+    elif k == "remove_dict":
+        del req[e["i"]]
+    elif k == "set_bucket":
+        req[e["i"]][key] = list(e["fmts"])
+    elif k == "remove_bucket":
+        del req[e["i"]][key]
+    elif k == "append_fmt":
+        req[e["i"]][key].append(e["f"])
+    elif k == "remove_fmt":
+        req[e["i"]][key].remove(e["f"])
+    else:
+        raise ValueError(k)
+    if not inplace:
+        outputs.save_data_to_file = req
+
+
+def hist(p):
+    """Several simulations on ONE running-mode / Outputs object, with edits of the outputs in between."""
+    import dask
+    import pyxel
+    from harness import pyx
+    from pyxel.outputs import ExposureOutputs, ObservationOutputs, Outputs
+
+    _freeze(p.get("ts", "20240102_030405"))
+    parent = _scratch("hi")
+    mode = p["mode"]
+    nruns = int(p.get("nruns", 1))
+    pre_by_dir: dict[str, dict] = {}          # relative directory -> {name: (bytes, token)}
+    for d, names in p.get("world", []):
+        (parent / d).mkdir(parents=True)
+        pb = {}
+        for k, name in enumerate(names):
+            raw = f"FOREIGN {d} {k} {name}\n".encode() * 3
+            (parent / d / name).write_bytes(raw)
+            pb[name] = (raw, -10 - k)
+        pre_by_dir[d] = pb
+    cfg = p["cfg"]
+    cls = ExposureOutputs if mode == "exposure" else ObservationOutputs
+    outputs = cls(output_folder=parent / cfg["folder"], custom_dir_name=cfg["prefix"],
+                  save_data_to_file=_py_req(cfg["req"]))
+    readout = pyx.make_readout(times=[1.0])
+    if mode == "exposure":
+        from pyxel.exposure import Exposure
+
+        m = Exposure(readout=readout, outputs=outputs)
+    else:
+        from pyxel.observation import Observation, ParameterValues
+
+        m = Observation(
+            parameters=[ParameterValues(key="pipeline.charge_collection.fill.arguments.run",
+                                        values=list(range(nruns)))],
+            mode="product", readout=readout, outputs=outputs, with_dask=(mode == "dask"))
+
+    def rel(d: Path) -> str:
+        try:
+            return str(Path(d).relative_to(parent))
+        except ValueError:
+            return str(d)
+
+    pending_pre = {"names": []}
+    orig_create = Outputs.create_output_folder
+
+    def create_and_populate(self):
+        orig_create(self)
+        if self is outputs:
+            d = Path(self.current_output_folder)
+            pb = {}
+            for k, name in enumerate(pending_pre["names"]):
+                raw = f"PRE-EXISTING {k} {name}\n".encode() * 3
+                (d / name).write_bytes(raw)
+                pb[name] = (raw, -10 - k)
+            pre_by_dir[rel(d)] = pb
+
+    def start(ep, pre):
+        """run_mode once; returns (dir, data tree or None, err, detail)."""
+        pending_pre["names"] = list(pre)
+        pipeline = pyx.make_pipeline({"charge_collection": [
+            {"func": "verif_probes_c19.fill", "name": "fill", "arguments": {"run": 0, "epoch": ep}}]})
+        detector = pyx.make_detector(rows=ROWS, cols=COLS)
+        try:
+            dt = pyxel.run_mode(mode=m, detector=detector, pipeline=pipeline, with_inherited_coords=True)
+            err, detail = None, None
+        except Exception as ex:  # noqa: BLE001
+            dt, err, detail = None, _classify(ex), f"{type(ex).__name__}: {ex}"[:300]
+        # the directory this simulation works in is what the outputs object says after run_mode — also when it
+        # is the one of the previous simulation (the specification then rejects it: not pairwise distinct)
+        try:
+            after = outputs.current_output_folder
+        except Exception:  # noqa: BLE001
+            return None, dt, err, detail or "no output folder"
+        return Path(after), dt, err, detail
+
+    def load(dt, lazy):
+        out_node = dt["/output"] if "output" in dt.children else None
+        loaded = {}
+        if out_node is not None:
+            names = list(out_node.children)
+            if lazy:
+                arrs = dask.compute(*[out_node[b]["filename"].data for b in names])
+            else:
+                arrs = [out_node[b]["filename"].values for b in names]
+            for b, a in zip(names, arrs):
+                loaded[b] = (out_node[b]["filename"], np.asarray(a))
+        return loaded
+
+    def record(ep, d, at, loaded, err, detail):
+        rep = []
+        if err is None:
+            rep = _parse_output(loaded, mode, at)
+            if isinstance(rep, dict):
+                return rep
+        elif mode == "dask":
+            _settle(at)
+        return dict(ep=ep, dir=rel(d), at=rel(at), err=err, rep=sorted(rep),
+                    files=_listing(at, pre_by_dir.get(rel(at), {})), detail=detail)
+
+    def written_to(loaded, default: Path) -> Path:
+        parents = set()
+        for _, (_, vals) in loaded.items():
+            for nm in np.asarray(vals, dtype=object).reshape(-1):
+                q = Path(str(nm))
+                if q.is_absolute():
+                    parents.add(q.parent)
+        return parents.pop() if len(parents) == 1 else default
+
+    recs, started, ep = [], [], 0
+    Outputs.create_output_folder = create_and_populate
+    try:
+        with dask.config.set(scheduler=p.get("scheduler", "threads")):
+            for o in p["ops"]:
+                k = o[0]
+                if k == "edit":
+                    _apply_edit(outputs, parent, o[1])
+                elif k in ("run", "start"):
+                    d, dt, err, detail = start(ep, o[2])
+                    if d is None:
+                        return dict(error=f"simulation {ep}: {detail}")
+                    lazy = mode == "dask"
+                    if err is not None:
+                        recs.append(record(ep, d, d, {}, err, detail))
+                        started.append(None)
+                    elif k == "run" or not lazy:
+                        try:
+                            loaded = load(dt, lazy)
+                        except Exception as ex:  # noqa: BLE001
+                            recs.append(record(ep, d, d, {}, _classify(ex), f"{type(ex).__name__}: {ex}"[:300]))
+                        else:
+                            recs.append(record(ep, d, written_to(loaded, d), loaded, None, None))
+                        started.append(None)
+                    else:
+                        started.append((ep, d, dt))
+                    ep += 1
+                elif k == "compute":
+                    i = o[1]
+                    if i >= len(started) or started[i] is None:
+                        continue
+                    e0, d, dt = started[i]
+                    started[i] = None
+                    try:
+                        loaded = load(dt, True)
+                    except Exception as ex:  # noqa: BLE001
+                        recs.append(record(e0, d, d, {}, _classify(ex), f"{type(ex).__name__}: {ex}"[:300]))
+                    else:
+                        recs.append(record(e0, d, written_to(loaded, d), loaded, None, None))
+                else:
+                    raise ValueError(k)
+                if recs and "error" in recs[-1]:
+                    return recs[-1]
+    finally:
+        Outputs.create_output_folder = orig_create
+    # a parallel observation that failed: tasks of its other runs may have gone on writing into ITS directory
+    # after the exception surfaced — what it left is what is there at the end
+    loose = [x for x in recs if x["err"] is not None and mode == "dask"]
+    for x in loose:
+        _settle(parent / x["at"], quiet=0.2, limit=3.0)
+        x["files"] = _listing(parent / x["at"], pre_by_dir.get(x["at"], {}))
+    final = []
+    for top in sorted(parent.iterdir()):
+        if top.is_dir():
+            for d in sorted(top.iterdir()):
+                if d.is_dir():
+                    final.append([rel(d), _listing(d, pre_by_dir.get(rel(d), {}))])
+    return dict(recs=recs, final=final)
+
+
+# ------------------------------------------------------------------------------------------ automatic numbering
+
+
+def auto(p):
+    """A to_* writer called with run_number=None (apply_run_number globs for the next free number)."""
+    import pyxel.outputs.utils as u
+
+    w, ext = p["writer"], p["ext"]
+    folder = _scratch("au")
+    prefix = "detector_image_array_"
+    pre = {}
+    for k, mid in enumerate(p["mids"]):
+        raw = f"NUMBERED {k} {mid}\n".encode() * 2
+        (folder / f"{prefix}{mid}.{ext}").write_bytes(raw)
+        pre[f"{prefix}{mid}.{ext}"] = raw
+    data = np.full((ROWS, COLS), 2.0)
+    if w in ("to_png", "to_jpg"):
+        data = np.full((ROWS, COLS), 2, dtype=np.uint8)
+    elif w == "to_csv":
+        import pandas as pd
+
+        data = pd.DataFrame({"a": [2.0, 2.0]})
+    try:
+        ret = getattr(u, w)(current_output_folder=folder, data=data, name="detector.image.array",
+                            with_auto_suffix=True, run_number=None)
+    except OSError as ex:           # refused (FileExistsError): no file was produced
+        now = {q.name: q.read_bytes() for q in folder.iterdir()}
+        return dict(new="!" + type(ex).__name__, intact=all(now.get(n) == raw for n, raw in pre.items()),
+                    created=len(set(now) - set(pre)))
+    except Exception as ex:  # noqa: BLE001
+        return dict(error=f"{type(ex).__name__}: {ex}"[:300])
+    name = Path(ret).name
+    if not (name.startswith(prefix) and name.endswith("." + ext)):
+        return dict(error=f"unexpected returned name {name}")
+    now = {q.name: q.read_bytes() for q in folder.iterdir()}
+    intact = all(now.get(n) == raw for n, raw in pre.items())
+    return dict(new=name[len(prefix):-len(ext) - 1], intact=intact, created=len(set(now) - set(pre)))
 
 
 def handle(p):
@@ -522,4 +810,8 @@ def handle(p):
         return writer(p)
     if kind == "flow":
         return flow(p)
+    if kind == "hist":
+        return hist(p)
+    if kind == "auto":
+        return auto(p)
     raise ValueError(kind)
